@@ -160,6 +160,29 @@ func (g *Gen) call(b *ssa.BasicBlock, ins ssa.Instruction, c *ssa.CallCommon, h 
 			}
 		}
 	}
+	// a function value passed to unknown code may be called by it: everything that callback can write is havocked
+	for _, av := range c.Args {
+		if _, isFn := av.Type().Underlying().(*types.Signature); !isFn {
+			continue
+		}
+		var cb *ssa.Function
+		switch x := av.(type) {
+		case *ssa.MakeClosure:
+			cb, _ = x.Fn.(*ssa.Function)
+		case *ssa.Function:
+			cb = x
+		}
+		if cb == nil {
+			h2 = g.havocAll(h2)
+			continue
+		}
+		g.Assumed["external call "+strings.TrimPrefix(key, "extern:")+": may invoke its callback argument any number of times (the callback's write set is havocked)"] = true
+		if ws, all := g.P.writeSet(cb); all {
+			h2 = g.havocAll(h2)
+		} else {
+			h2 = g.havocComps(h2, ws, "callback:"+cb.Name())
+		}
+	}
 	r := resultVal(g, res, "ext:"+fn.Name())
 	h2 = g.allocHavoc(h2)
 	g.assumeAllocated(h2, r)
